@@ -14,6 +14,9 @@ the edge, and (b) a twin of real blocks whose clock() the harness calls under th
 import copy
 import random
 
+import py4hw
+import py4hw.simulation
+
 from ..core import Violation, shrink_list, h64
 from .. import seams, netlist
 from ..catalog import KINDS, kinds_with
@@ -30,7 +33,7 @@ REAL = ['py4hw.simulation.Simulator._clk_cycle (enable test, per-driver clockAll
         'py4hw.logic.clock.GatedClock', 'sequential library blocks']
 STUB = ['stimulus']
 ASSUMPTIONS = ['reference models of dsim/catalog.py']
-PROBES = ['regated_after_run', 'driver_on_block', 'top_driver_gated', 'enable_attached_late', 'disabled_edge', 'enabled_edge', 'self_gated', 'cross_domain_enable', 'wide_enable', 'nested_driver', 'gatedclock_idiom', 'single_cycle_stall', 'long_stall']
+PROBES = ['refetched_through_constructor', 'caller_supplied_top_driver', 'regated_after_run', 'driver_on_block', 'top_driver_gated', 'enable_attached_late', 'disabled_edge', 'enabled_edge', 'self_gated', 'cross_domain_enable', 'wide_enable', 'nested_driver', 'gatedclock_idiom', 'single_cycle_stall', 'long_stall']
 
 
 def gen(rs, tier, index):
@@ -80,6 +83,7 @@ def gen(rs, tier, index):
         nm = 'i%d' % len(d['inputs'])
         d['inputs'].append({'name': nm, 'w': 1, 'role': 'enable'})
         d['top_enable'] = nm              # the top-level driver gated through an enable attached after construction
+        d['own_top_driver'] = rng.random() < 0.4      # ... of a driver object the caller passed to HWSystem(clock_driver=)
     order = list(d['order'])
     if rng.random() < 0.5:
         rng.shuffle(order)
@@ -124,7 +128,8 @@ def gen(rs, tier, index):
             elif sr.random() >= hold[j]:
                 cur[j] = netlist.gen_vector(sr, [i])[0]
         nn = 1 if fr.random() < 0.8 else fr.randint(2, 5)
-        steps.append({'vec': list(cur), 'n': nn, 'resort': fr.random() < 0.05, 'pseed': rs.sub('p%d' % si)})
+        steps.append({'vec': list(cur), 'n': nn, 'resort': fr.choice(['get', 'ctor']) if fr.random() < 0.07 else False,
+                      'pseed': rs.sub('p%d' % si)})
         c += nn
         si += 1
     return {'design': d, 'order': order, 'steps': steps}
@@ -159,6 +164,8 @@ def run(scn, log, st):
     if d.get('top_enable'):
         gd[''] = {'en': d['top_enable'], 'mode': 'input', 'idiom': 'late_enable'}
         st.probe('top_driver_gated')
+        if d.get('own_top_driver'):
+            st.probe('caller_supplied_top_driver')
     if any(dv.get('idiom') == 'late_enable' for dv in gd.values()):
         st.probe('enable_attached_late')
     seen_en, seen_dis = set(), set()
@@ -183,7 +190,12 @@ def run(scn, log, st):
             regate = None
         if step['resort']:
             with quiet():
-                sim = b.hw.getSimulator()
+                if step['resort'] == 'ctor':
+                    # the simulator of a system that already has one, asked for through the public constructor
+                    sim = py4hw.simulation.Simulator(b.hw)
+                    st.probe('refetched_through_constructor')
+                else:
+                    sim = b.hw.getSimulator()
             st.fault('resort')
         seams.EdgeShuffler(sim, rng, st)
         vec = step['vec']
